@@ -88,7 +88,7 @@ func (w *WorkerPool) Start() *WorkerPool {
 
 // Submit submits a new task to the WorkerPool.
 func (w *WorkerPool) Submit(workerFunc func(), optStackTrace ...string) {
-	if !w.IsRunning() {
+	if !w.increasePendingTasksIfRunning() {
 		if w.optPanicOnSubmitAfterShutdown {
 			panic(fmt.Sprintf("worker pool '%s' is not running", w.Name))
 		}
@@ -97,8 +97,6 @@ func (w *WorkerPool) Submit(workerFunc func(), optStackTrace ...string) {
 	}
 
 	verifSubmitWindow(w)
-	w.increasePendingTasks()
-
 	w.Queue.Push(newTask(workerFunc, w.decreasePendingTasks, lo.First(optStackTrace)))
 }
 
@@ -179,14 +177,33 @@ func (w *WorkerPool) stop() (stopped bool) {
 	return true
 }
 
-// increasePendingTasks increases the number of pending tasks.
-func (w *WorkerPool) increasePendingTasks() {
+// increasePendingTasksIfRunning increases the number of pending tasks if the WorkerPool is running (atomically with
+// respect to Shutdown: a task is either counted before the WorkerPool is switched off or rejected).
+func (w *WorkerPool) increasePendingTasksIfRunning() (accepted bool) {
+	w.mutex.RLock()
+	defer w.mutex.RUnlock()
+
+	if !w.isRunning {
+		return false
+	}
+
 	w.PendingTasksCounter.Increase()
+
+	return true
 }
 
 // decreasePendingTasks decreases the number of pending tasks.
 func (w *WorkerPool) decreasePendingTasks() {
-	w.PendingTasksCounter.Decrease()
+	if w.PendingTasksCounter.Decrease() == 0 {
+		// the dispatcher of a WorkerPool that was shut down waits for elements as long as tasks are pending
+		w.Queue.SignalShutdown()
+	}
+}
+
+// hasWork returns true as long as the dispatcher has to serve the queue: the WorkerPool is running, or accepted tasks are
+// still pending (they are in the queue, on their way into it, or being executed).
+func (w *WorkerPool) hasWork() bool {
+	return w.IsRunning() || w.PendingTasksCounter.Get() > 0
 }
 
 // startDispatcher starts the dispatcher that dispatches tasks to the workers.
@@ -198,13 +215,11 @@ func (w *WorkerPool) startDispatcher() {
 
 // dispatcher is the dispatcher that dispatches tasks to the workers.
 func (w *WorkerPool) dispatcher() {
-	for w.IsRunning() || w.Queue.Size() > 0 {
-		if task, success := w.Queue.PopOrWait(w.IsRunning); success {
+	for w.hasWork() {
+		if task, success := w.Queue.PopOrWait(w.hasWork); success {
 			w.dispatcherChan <- task
 		}
 	}
-
-	w.PendingTasksCounter.WaitIsZero()
 
 	close(w.dispatcherChan)
 }
